@@ -306,6 +306,9 @@ func (d *jobDeath) Error() string {
 	if d.timeout {
 		return "worker produced no result within the wall-clock limit (possible CPU wedge)"
 	}
+	if path := os.Getenv("VERIF_DEATH_DUMP"); path != "" {
+		os.WriteFile(path, []byte(d.stderr), 0o644) // debugging aid: the whole output of the dead worker
+	}
 	return fmt.Sprintf("worker died (exit %d): %s\n[...]\n%s", d.exit, firstLines(d.stderr, 25), lastLines(d.stderr, 12))
 }
 
